@@ -2655,6 +2655,15 @@ impl SctpInner {
         }
         let tsn = buf.get_u32();
 
+        // DATA that overtakes a lost COOKIE-ACK reaches us while our
+        // COOKIE-ECHO is still unacknowledged. Dropping it (the peer
+        // retransmits) keeps the channel events in order: Open always
+        // precedes the first message.
+        if matches!(&*self.t1_chunk.lock(), Some((ct, _, _)) if *ct == CT_COOKIE_ECHO) {
+            trace!("SCTP DATA tsn={} before COOKIE-ACK, dropping", tsn);
+            return Ok(());
+        }
+
         // Deduplication and Ordering Check
         let cumulative_ack = self.cumulative_tsn_ack.load(Ordering::Relaxed);
         let diff = tsn.wrapping_sub(cumulative_ack);
